@@ -190,6 +190,16 @@ def candsOf (j : Json) : Except String (List (Option RTarget)) :=
 
 def is3xx (s : Int) : Bool := 300 ≤ s && s ≤ 399
 
+/-- the redirect counter (`p.Stats.RedirectCounter.With("code", strconv.Itoa(code)).Add(1)`): one increment labelled
+with the status for a redirect answer, none otherwise; cases recorded without a counter carry no `counted` field -/
+def countedOK (a : Json) (redirectCode : Option Int) : Bool :=
+  match a.getObjValAs? Int "counted" with
+  | .error _ => true
+  | .ok n =>
+    match redirectCode with
+    | some c => n == 1 && getS a "countcode" == bytesOf (toString c)
+    | none => n == 0
+
 def httpH : Handler := fun inp impl => do
   let err := (impl.getObjValAs? String "err").toOption.getD ""
   if err != "" then
@@ -332,12 +342,12 @@ def seqH : Handler := fun inp impl => do
       let iloc := getS a "location"
       match answer (reqScheme xfp false) req [some t] with
       | some (code, loc) =>
-        (status == code && iloc == loc,
+        (status == code && iloc == loc && countedOK a (some code),
          status == t.code && locationSpec t host (escapedPath req) (rawPathOf target) req.rawQuery iloc,
          Json.mkObj [("status", code), ("location", showB loc)])
       | none =>
         -- the redirect would point at the request itself: skipped, no other route, no-route answer
-        (status == 404 && !getB a "hasloc", !is3xx status, Json.mkObj [("status", 404)])
+        (status == 404 && !getB a "hasloc" && countedOK a none, !is3xx status, Json.mkObj [("status", 404)])
   let rs := (reqs.zip answ).map (fun (rq, a) => judge rq a)
   let lenOK := reqs.length == answ.length || reqs.length > 64
   let hostsSeen := (reqs.map (fun rq => getS rq "host")).eraseDups
@@ -432,7 +442,7 @@ def tagH : Handler := fun inp impl => do
         | some l => l.scheme == reqScheme xfp false && l.host == hexEscapeNonASCII (escape .host host) && unescape l.path == some req.path
         | none => false
       return ({ model := Json.mkObj [("status", code), ("location", showB loc), ("dst", showB m.dst)],
-                agree := cmdAgree && status == code && iloc == loc, spec := cmdSpec && locOK && !ownAnswered, nontrivial := nontrivial,
+                agree := cmdAgree && status == code && iloc == loc && countedOK a (some code), spec := cmdSpec && locOK && !ownAnswered, nontrivial := nontrivial,
                 tag := if fcls then cls else if ownAnswered then "self-redirect-answered" else posTag } : Verdict).toJson
     | .noRoute =>
       -- the redirect points at the request itself: skipped, no other route
@@ -440,7 +450,7 @@ def tagH : Handler := fun inp impl => do
                 nontrivial := nontrivial, tag := "self-skip-" ++ posTag } : Verdict).toJson
     | _ =>
       -- not a redirect route (no or malformed redirect field, or a code outside 300..399): proxied
-      return ({ model := Json.mkObj [("redirect", false)], agree := cmdAgree && !is3xx status, spec := cmdSpec && (tspec.code ≠ 0 || !is3xx status),
+      return ({ model := Json.mkObj [("redirect", false)], agree := cmdAgree && !is3xx status && countedOK a none, spec := cmdSpec && (tspec.code ≠ 0 || !is3xx status),
                 nontrivial := false, tag := "proxied-" ++ posTag } : Verdict).toJson
 
 def streams : List (String × Handler) :=
